@@ -37,7 +37,7 @@ type loggingLimit struct {
 	log   *orderLog
 }
 
-func (l *loggingLimit) EstimatedLimit() int                        { return l.inner.EstimatedLimit() }
+func (l *loggingLimit) EstimatedLimit() int                       { return l.inner.EstimatedLimit() }
 func (l *loggingLimit) NotifyOnChange(c core.LimitChangeListener) { l.inner.NotifyOnChange(c) }
 func (l *loggingLimit) OnSample(st int64, rtt int64, f int, d bool) {
 	l.inner.OnSample(st, rtt, f, d)
